@@ -1,6 +1,16 @@
 /-
-The parameters of the `pa` model as regenerated from the Go source (`Gotlcp.Facts.pa.*`).
-Both the oracle and the C20 theorems use this one definition.
+The parameters of the `pa` model for this tree.  Both the oracle and the C20 theorems use this one
+definition.
+
+* `headerLen`, `majorIndex`, `minorIndex`, `resumable` — what `ProtocolDetectConn.ReadFirstHeader` does — are
+  LITERALS justified by the translation tie: `Gotlcp.Tie.PA.tie_readFirstHeader` proves that the function
+  translated from pa/conn.go on every run (`Gotlcp.Src.pa`) computes `Model.PA.readFirstHeader` with exactly
+  these values (`Tie.PA.TreeP factsP`, `C20_src_refines_model` in `Props/C20.lean`); a change of the Go text that
+  changes any of them breaks that proof.  The regular-expression facts `Facts.pa.headerLen` … are still emitted
+  as information but no longer feed the model (DESIGN.md 13.3), so a rename-only edit of `ReadFirstHeader`
+  cannot break the check.
+* the dispatch table of `detect` and what the public object keeps of a detection stay regenerated facts
+  (`detect`, `conn()` are not translated).
 -/
 import Gotlcp.Model.PA
 import Gotlcp.Generated.Facts
@@ -8,10 +18,10 @@ import Gotlcp.Generated.Facts
 namespace Gotlcp.Model.PA
 
 def factsP : Params where
-  headerLen := Facts.pa.headerLen
-  majorIndex := Facts.pa.majorIndex
-  minorIndex := Facts.pa.minorIndex
-  resumable := Facts.pa.headerResumable
+  headerLen := 5
+  majorIndex := 1
+  minorIndex := 2
+  resumable := true
   table := Facts.pa.dispatch.map (fun r => (r.1, r.2.1, r.2.2.1))
   defaultUnsupported := Facts.pa.dispatchDefaultUnsupported
   retriesDetect := Facts.pa.connDetectsWheneverUnwrapped && Facts.pa.failureKeptFields.isEmpty &&
